@@ -268,8 +268,12 @@ pub fn build_project(main: &str, outdir: &str, target: &str) -> Outcome {
 fn watchdog_run(bin: &str, args: &[String]) -> Result<(Option<std::process::ExitStatus>, String, String), String> {
     let mut last = (None, String::new(), String::new());
     for limit in [10u64, 90] {
+        // programs that write files (the repository's file_io example) write them next to the binary, not into
+        // whatever directory the check was started from
+        let cwd = std::path::Path::new(bin).parent().map(|p| p.to_path_buf()).unwrap_or_else(|| std::path::PathBuf::from("."));
         let mut child = Command::new(bin)
             .args(args)
+            .current_dir(cwd)
             .stdout(std::process::Stdio::piped())
             .stderr(std::process::Stdio::piped())
             .spawn()
